@@ -235,7 +235,7 @@ func runCase(fx *fixture, c Case) (v verdict) {
 			distinct += ref.treeSizes[i]
 		}
 	}
-	B := distinct > c.MaxTree          // certainly over the limit
+	B := distinct > c.MaxTree            // certainly over the limit
 	Bmaybe := withMult > c.MaxTree && !B // over the limit only if the same Tree counts twice: don't care
 	X := ref.treeAbsent || Bmaybe || ref.unrefMal
 	injected := cas.injected
